@@ -189,6 +189,18 @@ func vfEffectiveMotion(model string, o vfMotionOv) goconfig.ThermalMotion {
 
 func vfGenC11(t *rapid.T) vfC11Case {
 	c := vfC11Case{Cam: vfGenCam(t)}
+	realSize := rapid.IntRange(0, 15).Draw(t, "realsize") == 0
+	if realSize {
+		// the resolutions of the real cameras (frames of 38 kB .. 640 kB)
+		if c.Cam.Model == "boson" {
+			c.Cam.W, c.Cam.H = 320, 256
+			if rapid.Bool().Draw(t, "boson640") {
+				c.Cam.W, c.Cam.H = 640, 512
+			}
+		} else {
+			c.Cam.W, c.Cam.H = 160, 120
+		}
+	}
 	simple := rapid.IntRange(0, 2).Draw(t, "simple") > 0
 	c.Conf = vfGenConf(t, c.Cam, simple)
 	eff := vfEffectiveMotion(c.Cam.Model, c.Conf.Motion)
@@ -209,7 +221,7 @@ func vfGenC11(t *rapid.T) vfC11Case {
 				v = 1
 			}
 		}
-		if onEdge && rapid.IntRange(0, 3).Draw(t, "edgezero") == 0 {
+		if onEdge && ((realSize && (x+y)%3 == 0) || (!realSize && rapid.IntRange(0, 3).Draw(t, "edgezero") == 0)) {
 			v = 0
 		}
 		c.Base[p] = v
@@ -232,6 +244,9 @@ func vfGenC11(t *rapid.T) vfC11Case {
 		return c
 	}
 	total := rapid.IntRange(20, 90).Draw(t, "nframes")
+	if realSize && total > 30 {
+		total = 30
+	}
 	// blob pattern: quiet lead-in, then motion episodes
 	on := false
 	for i := 0; i < total; i++ {
@@ -337,7 +352,7 @@ func (s *vfTwinSink) StopRecording() error {
 
 func vfC11Valid(c vfC11Case) string {
 	cam := c.Cam
-	if cam.W < 4 || cam.H < 4 || cam.W > 64 || cam.H > 64 || cam.FPS < 1 || cam.FPS > 60 || len(c.Base) != cam.W*cam.H || len(c.Frames) > 400 {
+	if cam.W < 4 || cam.H < 4 || cam.W > 640 || cam.H > 512 || cam.FPS < 1 || cam.FPS > 60 || len(c.Base) != cam.W*cam.H || len(c.Frames) > 400 {
 		return "bad camera / stream"
 	}
 	if cam.Brand != "flir" || (cam.Model != "lepton3" && cam.Model != "lepton3.5" && cam.Model != "boson") {
@@ -575,6 +590,9 @@ func vfRunC11(c vfC11Case) *kit.Result {
 		r.Class("model_defaults_in_force")
 	}
 	r.Class("model=" + c.Cam.Model)
+	if c.Cam.W >= 160 {
+		r.Class("real_resolution")
+	}
 	if c.Conf.Throttle {
 		r.Class("throttle_on")
 	}
